@@ -59,7 +59,9 @@ def counter_cases():
     # BLAKE2 byte counters: low word wraps, high word increments; high word wrap (2^64 for s, 2^128 for b) as well
     for which, B, w, kind, mx in (("s", 64, 32, "b2sdyn", 32), ("b", 128, 64, "b2bdyn", 64)):
         lowmax = 1 << w
-        presets = [(lowmax - 2 * B, 0), (lowmax - B, 0), (lowmax - 1, 0), (lowmax - B - 1, 0), (lowmax - B, 1), (lowmax - B, lowmax - 1), (lowmax - 1, lowmax - 1), (0, lowmax - 1), (5, 7)]
+        half = lowmax >> 1
+        presets = [(lowmax - 2 * B, 0), (lowmax - B, 0), (lowmax - 1, 0), (lowmax - B - 1, 0), (lowmax - B, 1), (lowmax - B, lowmax - 1), (lowmax - 1, lowmax - 1), (0, lowmax - 1), (5, 7),
+                   (half - B, 0), (half - 1, 0), (half, 0), (half + B, half), (3, half), (half - 2 * B, half - 1)]
         for (t0, t1) in presets:
             c0 = t0 | (t1 << w)
             for key in (b"", pat(6, 0, mx)):
@@ -230,6 +232,15 @@ def misuse_cases():
         bad(["pbkdf2 %s h:70 h:73 0 %d" % (kind, D)], "pbkdf2 c = 0")
     for (ln, r, p) in ((0, 1, 1), (1, 0, 1), (1, 1, 0), (16, 1, 1), (32, 2, 1), (64, 8, 1), (1, 1, 1 << 30), (1, 1 << 15, 1 << 15), (1, 1 << 30, 1)):
         bad(["scrypt_params %d %d %d" % (ln, r, p)], "scrypt params (%d,%d,%d)" % (ln, r, p))
+    # r * p >= 2^30 must be refused for every power-of-two split and for products that wrap a 32-bit multiplication
+    for a in range(0, 32):
+        for b in range(0, 32):
+            if a + b >= 30:
+                bad(["scrypt_params 1 %d %d" % (1 << a, 1 << b)], "scrypt params r=2^%d p=2^%d" % (a, b))
+    for (r, p) in ((2, 0x80000000), (3, 0x55555556), (0x10000, 0x10000), (0x10001, 0xffff), (5, 0x33333334), (0xffffffff, 0xffffffff), (0xffffffff, 2), (2, 0xffffffff)):
+        bad(["scrypt_params 1 %d %d" % (r, p)], "scrypt params r=%d p=%d" % (r, p))
+    for ln in range(16, 70):
+        bad(["scrypt_params %d 1 1" % ln], "scrypt params log_n=%d r=1" % ln)
     bad(["scrypt h:70 h:73 1 1 1 0"], "scrypt empty output")
     out.append((["argon2_setter parallelism 0"], [{"prefix": "ERR:"}], {"note": "argon2 parallelism 0"}))
     out.append((["argon2_setter parallelism %d" % (1 << 24)], [{"prefix": "ERR:"}], {"note": "argon2 parallelism 2^24"}))
